@@ -29,6 +29,7 @@ RULE = (
     "cell); maps whose maximum is attained in >= 2 cells are counted separately (tied_map_threshold_pairs)"
 )
 ASSUMPTIONS = [
+    "history part: all ordered pairs (thorough: triples) of a small call alphabet chosen to collide in every shape-like cache key, each history in a forked child, compared with a fresh-process result",
     "bounded scope: 'all float maps' = all maps with h,w <= 3 (plus 1xN/Nx1 strips N<=5; thorough: 3x4, 4x3 over 3 levels, 4x4 over 2 levels) over <= 4 value levels {-1,0,0.5,1}; refinement on those maps raw and embedded in 7x7 zero maps, on 9x9 Gaussian bumps (centres on the 1/4-px lattice quick, 1/8-px thorough; sigma 1, 1.5, 2.5; amplitudes 1 and 0.15) and on mirror-symmetric 3x3 bumps",
     "thresholds {-2, 0, 0.2, 0.5, 0.75, 2} are passed as the float64 value of their float32 rounding; 'below the threshold' is read strictly (a maximum equal to the threshold is a valid peak)",
     "refinement displacement bound is asserted where it exists mathematically: non-negative map and positive peak value (convex regression weights); 'half the patch size' is read as the half-extent (patch-1)/2 of the patch's cell-centre grid, +1e-5 slack; outside that domain only values / NaN pattern are asserted and the cases are counted (refine_outside_domain)",
@@ -493,8 +494,49 @@ def plan(tier):
     return items
 
 
+FN_NAME = "find_global_peaks"
+
+
+def history_calls():
+    """Calls that collide in batch shape / patch size / threshold in different combinations."""
+    import numpy as np
+
+    out = []
+    rng_maps = {}
+    for (s, c, h, w) in [(2, 3, 5, 5), (1, 3, 7, 5), (3, 1, 5, 7)]:
+        yy, xx = np.mgrid[0:h, 0:w].astype(np.float64)
+        m = np.zeros((s, c, h, w), dtype=np.float32)
+        for i in range(s):
+            for j in range(c):
+                cx, cy = 1.3 + 0.9 * j + 0.4 * i, 1.6 + 0.7 * i + 0.3 * j
+                m[i, j] = np.exp(-((xx - cx) ** 2 + (yy - cy) ** 2) / 2.0) + 0.6 * np.exp(-((xx - (w - 1.4)) ** 2 + (yy - (h - 1.7 - 0.2 * j)) ** 2) / 1.5)
+        rng_maps[(s, c, h, w)] = m
+    for shape, m in rng_maps.items():
+        for patch in (None, 3, 4, 5):
+            for thr in ((0.2, 0.7) if patch == 5 else (0.2,)):
+                out.append((f"%s(shape={shape},patch={patch},thr={thr})" % FN_NAME, {"maps": m, "patch": patch, "thr": thr}))
+    return out
+
+
+def history_run(entry):
+    import torch
+
+    from sleap_nn.inference import peak_finding as pf
+
+    c = entry[1]
+    t = torch.from_numpy(c["maps"].copy())
+    fn = getattr(pf, FN_NAME)
+    if c["patch"] is None:
+        return list(fn(t, threshold=c["thr"], refinement=None))
+    return list(fn(t, threshold=c["thr"], refinement="integral", integral_patch_size=c["patch"]))
+
 def run(ctx):
     core.setup_torch()
+    # E2 part first (the parent has not called the functions yet): every ordered pair / triple of a small call alphabet
+    # in forked children, each result compared with the same call in a fresh process (history-dependent state)
+    from mc import history as _history
+
+    _history.search(ctx, history_calls(), history_run, depth=2 if ctx.tier == "quick" else 3)
     self_check()
     jobs, bounds = [], []
     for spec, thrs, patches in plan(ctx.tier):
@@ -510,6 +552,11 @@ def run(ctx):
 
 
 def replay(case):
+    if isinstance(case, dict) and case.get("kind") == "history":
+        core.setup_torch()
+        from mc import history as _history
+
+        return _history.replay(case, history_calls(), history_run)
     core.setup_torch()
     import torch
     from sleap_nn.inference import peak_finding as pf
